@@ -168,6 +168,26 @@ let eval fn args : string option =
       | "sm2", x :: y :: r -> (SigSM2 (z_of_hex x, z_of_hex y), r)
       | _ -> failwith "bad set_sig args" in
     Some (obs_outcome show_sig (set_signature_by_data zero sd (z_of_hex (List.hd rest))))
+  | "set_signature", [_; kind; a; b; sa; ha; msg; _] ->
+    (* the signer oracles return placeholders of the right shape: the observation leaves the
+       signature bytes out *)
+    let sk = match kind with
+      | "rsa" -> PrivRSA (z_of_hex a, z_of_hex b, Z0)
+      | "ecc" -> PrivECC (z_of_hex a, z_of_hex b, Z0)
+      | _ -> PrivSM2 (z_of_hex a, z_of_hex b, Z0) in
+    let sign_rsa k _ _ _ = match k with
+      | PrivRSA (n, _, _) -> List.init (int_of_z (bytelen n)) (fun _ -> Z0)
+      | _ -> [] in
+    let one = z_of_int 1 in
+    let sign_ec _ _ _ _ = (one, one) in
+    let junk = { s_scheme = z_of_int 0x55; s_ver = z_of_int 0x55; s_keysize = z_of_int 0x5555; s_hashalg = Z0; s_data = [] } in
+    let ks0 = { ks_ver = z_of_int 0x55; ks_key = { k_alg = Z0; k_ver = z_of_int 0x55; k_size = Z0; k_data = [] }; ks_sig = junk } in
+    Some (obs_outcome (fun (ks : keysig) ->
+        String.concat " " [ "ok"; hex_of_z ks.ks_ver; hex_of_z ks.ks_key.k_alg; hex_of_z ks.ks_key.k_ver;
+                            hex_of_z ks.ks_key.k_size; hex_of_bytes ks.ks_key.k_data;
+                            hex_of_z ks.ks_sig.s_scheme; hex_of_z ks.ks_sig.s_ver; hex_of_z ks.ks_sig.s_keysize;
+                            hex_of_z ks.ks_sig.s_hashalg; hex_of_z (z_of_int (List.length ks.ks_sig.s_data)) ])
+        (ks_set_signature sign_rsa sign_ec ks0 (z_of_hex sa) (z_of_hex ha) sk (bytes_of_hex msg)))
   | "sig_data", [sc; d] ->
     let m = { s_scheme = z_of_hex sc; s_ver = Z0; s_keysize = Z0; s_hashalg = Z0; s_data = bytes_of_hex d } in
     Some (obs_outcome show_sigdata (signature_data m))
